@@ -2,6 +2,6 @@
 #[tarpc::service]
 pub trait Rej74 {
     async fn a_b_(a0: i32) -> i32;
-    async fn _a_b(a0: i32);
+    async fn a_b(a0: i32, a1: String);
 }
 fn main() {}
